@@ -348,7 +348,10 @@ def history_cases(draw):
         handlers = draw(st.lists(st.sampled_from(HANDLED), unique=True, max_size=3))
         how = draw(st.sampled_from(["in-place", "in-place", "new-dict"]))
         value = draw_c20_value(draw, classes, 0, "top", names)
-        steps.append({"handlers": handlers, "how": how, "value": value})
+        # the value is dumped directly, or returned by a method of a server that owns the Config
+        # (request in 2.0 form, or in 1.0 form answered through the version-compatibility path)
+        via = draw(st.sampled_from(["dump", "dump", "server-2.0", "server-1.0", "server-1.0"]))
+        steps.append({"handlers": handlers, "how": how, "value": value, "via": via})
     return {"classes": classes, "names": names, "steps": steps}
 
 
@@ -356,11 +359,18 @@ def oracle_history(case):
     from jsonrpclib import jsonclass as JC
     from jsonrpclib.config import Config
 
+    import json
+    from jsonrpclib.SimpleJSONRPCServer import SimpleJSONRPCDispatcher
+
     cfg = Config()
     pseudo = {"classes": case["classes"], "names": case["names"]}
     b = C20Builder(pseudo, cfg)
     same_size_edit = False
     prev = None
+    box = {}
+    disp = SimpleJSONRPCDispatcher(config=cfg)
+    disp.register_function(lambda: box["value"], "get")
+    served = set()
     for i, step in enumerate(case["steps"]):
         table = {HANDLER_TYPES[h]: marker(h) for h in step["handlers"]}
         if step["how"] == "new-dict":
@@ -375,15 +385,29 @@ def oracle_history(case):
         prev = step["handlers"]
         v = b.build(step["value"])
         exp = reference(v, cfg, [])
-        try:
-            got = JC.dump(v, config=cfg)
-        except Exception as ex:
-            fail("C20/dump-raised:%s" % type(ex).__name__, "step %d: dump raised %s: %s" % (i, type(ex).__name__, str(ex)[:200]))
+        via = step.get("via", "dump")
+        if via != "dump":
+            box["value"] = v
+            body = '{"method": "get", "params": [], "id": 1}' if via == "server-1.0" else '{"jsonrpc": "2.0", "method": "get", "id": 1}'
+            try:
+                reply = json.loads(disp._marshaled_dispatch(body))
+            except Exception as ex:
+                fail("C20/dump-raised:%s" % type(ex).__name__, "step %d: the dispatcher raised %s: %s" % (i, type(ex).__name__, str(ex)[:200]))
+            if reply.get("error"):
+                fail("C20/server-reply-error", "step %d: a method returning %r was answered %r" % (i, v, reply["error"]))
+            got = reply.get("result")
+            exp = json.loads(json.dumps(exp))
+            served.add(via)
+        else:
+            try:
+                got = JC.dump(v, config=cfg)
+            except Exception as ex:
+                fail("C20/dump-raised:%s" % type(ex).__name__, "step %d: dump raised %s: %s" % (i, type(ex).__name__, str(ex)[:200]))
         r = strict_same(exp, got)
         if r:
-            fail("C20/config-history", "step %d (handlers %r after %r): dump output differs from the reference traversal at %s" % (
-                i, step["handlers"], case["steps"][i - 1]["handlers"] if i else None, r[:300]))
-    return Info(nt=same_size_edit, classes=["config-history", "steps:%d" % len(case["steps"])] + (["same-size-table-edit"] if same_size_edit else []),
+            fail("C20/config-history", "step %d via %s (handlers %r after %r): output differs from the reference traversal at %s" % (
+                i, via, step["handlers"], case["steps"][i - 1]["handlers"] if i else None, r[:300]))
+    return Info(nt=same_size_edit, classes=["config-history", "steps:%d" % len(case["steps"])] + (["same-size-table-edit"] if same_size_edit else []) + sorted("via-" + x for x in served),
                 sample={"handler-tables": [s_["handlers"] for s_ in case["steps"]]})
 
 
